@@ -72,7 +72,7 @@ CCAP = 160         # maximal number of tabulated rule calls of a completion
 
 
 def budget(tier):
-    return 2000 if tier == "quick" else 16000
+    return 2400 if tier == "quick" else 18000
 
 
 # ------------------------------------------------------------------------------------------------
@@ -137,12 +137,33 @@ def gen_completion_pair(rng):
             "rules": rng.choice(PAIR_SEQS), "params_none": False}
 
 
+def gen_pair_retry(rng):
+    """Targeted stream for the any(...) tests of the IRRESOLUTE retry loops: the pair election above makes the
+    irresolute base rule (Equal Shares or greedy under Cost_Sat: equal approval scores tie whatever the costs)
+    return several outcomes of DIFFERENT cost at the same budget, so that at some try one outcome is exhaustive /
+    infeasible for the original instance and another is not."""
+    c = gen_completion_pair(rng)
+    B = pb.F(c["budget"]) * rng.choice([1, 1, Fraction(4, 5), Fraction(3, 5), Fraction(1, 2)])
+    out = {"costs": c["costs"], "budget": pb.qs(B), "ballots": c["ballots"], "multi": c["multi"], "init": [],
+           "resolute": rng.random() < 0.1, "sat": "cost", "stream": "pair_retry"}
+    step = rng.choice([Fraction(1, 2), Fraction(1, 3), Fraction(1, 4), Fraction(1), B / 10])
+    if rng.random() < 0.6:
+        out.update({"kind": "increase", "rule": rng.choice(["mes", "mes", "greedy"]), "stop": rng.random() < 0.75,
+                    "step": pb.qs(step), "pass_params": True,
+                    "bound": rng.choice([None, None, pb.qs(B + step * rng.randrange(2, 9)), pb.qs(B * 2)])})
+    else:
+        out.update({"kind": "mesiter", "step": pb.qs(step / len(c["ballots"]))})
+    return out
+
+
 def gen(rng, i, tier):
-    if i % 5 == 3:
+    if i % 6 == 3:
         return gen_mesiter_deep(rng)
-    if i % 5 == 4:
+    if i % 6 == 4:
         return gen_completion_pair(rng)
-    kind = ["increase", "mesiter", "completion", "increase", "increase"][i % 5]
+    if i % 6 == 5:
+        return gen_pair_retry(rng)
+    kind = ["increase", "mesiter", "completion"][i % 6]
     resolute = rng.random() < (0.6 if kind != "completion" else 0.4)
     m = rng.choice([1, 2, 3, 3, 4, 4, 5, 5, 6]) if resolute else rng.choice([1, 2, 3, 3, 4, 4, 5])
     n = rng.choice([1, 2, 2, 3, 3, 4, 5])
